@@ -1086,6 +1086,10 @@ class Interp:
                     res.append((s, l))
                 else:
                     fl = (l[0], l[1] + (n['rec'] + '::' + n['m'],))
+                    # array-of-structs seen as parallel arrays: element i's member m of the split array lives in the m-th array
+                    sp = getattr(self, 'split_fields', None)
+                    if sp and fl[0] == sp['obj'] and len(fl[1]) == 2 and fl[1][1] in sp['map']:
+                        fl = (sp['map'][fl[1][1]], fl[1][:1])
                     if isref:
                         pv = s.mem.get(fl)
                         res.append((s, self.deref(s, pv, n) if pv is not None else (('ext', 'reffield:' + n['m']), ())))
